@@ -8,7 +8,7 @@
    on the abstract protocol in coq/RaftAbs by the raftabs group.
 
    The abstract-protocol theorems (coq/RaftAbs) are stated at the end of this file. *)
-From ZV Require Import Raft.Consts Raft.Model Raft.Proofs Raft.ProofsLog.
+From ZV Require Import Raft.Consts Raft.Model Raft.Proofs Raft.ProofsLog Raft.ProofsStore.
 From Coq Require Import List NArith.
 Import ListNotations.
 Open Scope N_scope.
@@ -103,6 +103,14 @@ Theorem C02_advance_gap_free : forall l m off es,
 Proof. exact advance_after_handout. Qed.
 Print Assumptions C02_advance_gap_free.
 
+
+(* (8) raft.maybeCommit's index selection (sort the voters' Match, take element len-quorum): the chosen
+       index is one of the Match values and at least quorum-many voters have Match >= it — an index is
+       only offered for commit when a majority of the voter list holds it *)
+Theorem C02_commit_index_has_quorum : forall ms c, commit_index ms = Some c ->
+  quorum (nlen ms) <= nlen (filter (fun m => c <=? m) ms) /\ In c ms.
+Proof. exact commit_index_has_quorum. Qed.
+Print Assumptions C02_commit_index_has_quorum.
 
 (* ====================================================================================== *)
 (* The property over all schedules, on the abstract protocol of coq/RaftAbs (Model.v: per-node term /
